@@ -137,6 +137,8 @@ structure St where
   corrOk : Bool := true
   notes : List String := []
   wfOk : Bool := true
+  curGap : Bool := false                 -- current message: a sighting for the code's location test, not for the text's
+  gaps : List Bool := []                 -- reversed, one per step
   mode : CbMode := .both                 -- which callbacks the listener under test was given (`mode` line)
 
 def St.bad (st : St) (s : String) : St :=
@@ -146,7 +148,10 @@ def beginEv (st : St) (genCfg specCfg : Cfg) (evOf : Cfg → Ev S) : St :=
   let eM := evOf genCfg
   let r := step Parse.ipVersion (Parse.skipHdr genCfg) st.tracker eM
   let st := if eM.wf then st else st.bad "ill-formed message (harness): _udn differs from the USN's udn / NTS missing"
-  { st with before := st.tracker, tracker := r.1, notif := r.2, evJ := some (evOf specCfg), cur := {} }
+  let gap := match eM, Parse.textReading (evOf specCfg) with
+    | .msg m, .msg mj => m.sighting?.isSome && mj.sighting?.isNone
+    | _, _ => false
+  { st with before := st.tracker, tracker := r.1, notif := r.2, evJ := some (Parse.textReading (evOf specCfg)), cur := {}, curGap := gap }
 
 def stepLine (genCfg specCfg : Cfg) (st : St) (toks : List String) : St :=
   match toks with
@@ -166,7 +171,7 @@ def stepLine (genCfg specCfg : Cfg) (st : St) (toks : List String) : St :=
     (match pairList st.tbl (if rest.isEmpty then "~" else ",".intercalate rest) with
      | some pairs =>
        let st := beginEv st genCfg specCfg fun _ => .noise (ts.toInt?.getD 0)
-       { st with evJ := some (Parse.parseEv specCfg (sock == "A") pairs) }
+       { st with evJ := some (Parse.textReading (Parse.parseEv specCfg (sock == "A") pairs)) }
      | none => st.bad "bad lost line")
   | ["drop", ts] => beginEv st genCfg specCfg fun _ => .noise (ts.toInt?.getD 0)
   | ["purge", ts] => beginEv st genCfg specCfg fun _ => .purge (ts.toInt?.getD 0)
@@ -196,7 +201,7 @@ def stepLine (genCfg specCfg : Cfg) (st : St) (toks : List String) : St :=
        let snapJ := sn.devs.map devObsOf
        let noLook : Look S := ⟨false, [], [], none, none⟩
        let cur : C04.Obs S := ⟨st.cur.target, st.cur.pre.getD noLook, st.cur.cbs, st.cur.post.getD noLook⟩
-       { st with trace3 := (e, snapJ) :: st.trace3, steps4 := (e, st.lastSnap, cur) :: st.steps4,
+       { st with gaps := st.curGap :: st.gaps, trace3 := (e, snapJ) :: st.trace3, steps4 := (e, st.lastSnap, cur) :: st.steps4,
                  lastSnap := snapJ, evJ := none }
      | _, _ => st.bad "bad snap line")
   | _ => st.bad s!"unknown line {" ".intercalate (toks.take 3)}"
